@@ -340,6 +340,14 @@ func partialRulesSSA(r *Run, scopeRule, onceRule, dataRule, orderRule string) {
 		case tail:
 			nLayout++
 			checkLayoutData(layoutCall.Call.Args[1], layoutCall.Pos())
+			// the layout nests in the partial's scope: the helper context handed on carries the child the partial was
+			// rendered in (the layout sees the call's data and what the partial registered with contentFor)
+			norm := func(v ssa.Value) ssa.Value { return p.resolve(stripIface(p.resolve(v))) }
+			if len(layoutCall.Call.Args) == 3 {
+				if cv, known := p.structField(layoutCall.Call.Args[2], embI); !known || norm(cv) != norm(child) {
+					add(scopeRule, "the layout is not rendered in a scope nested in the partial's: the helper context handed to the layout step does not carry the child scope the partial was rendered in", layoutCall.Pos())
+				}
+			}
 			continue
 		case mark != nil:
 			// the loop goes round: the variables it carries are the layout's name, its data and the scope to nest in
